@@ -71,15 +71,17 @@ pub fn run() -> Report {
             cases.push(Case { big: false, layout: layout.clone(), key, cbs: vec!["csvdump", "unspentcsvdump"] });
         }
     }
-    rep.rule = format!("all arrangements of {} blocks into <=3 files x gaps (none / 13 odd garbage bytes) x keys of length 1,2,3,7,8,9,64 and 8 zero bytes, XOR applied from file offset 0; blocks of 40 KiB and 100 KiB in forward / backward / mixed order; sparse offsets beyond 4 GiB; csvdump for every case and all five callbacks for every 6th: output must be identical to the plaintext directory's (differential oracle; the plaintext csvdump run is additionally compared with the model once per layout); non-trivial = distinct (layout, key)", n);
+    rep.rule = format!("all arrangements of {} blocks into <=3 files x gaps (none / 13 odd garbage bytes) x keys of length 1,2,3,7,8,9,64 and 8 zero bytes, XOR applied from file offset 0, every other case with --verify; blocks of 40 KiB and 100 KiB in forward / backward / mixed order; sparse offsets beyond 4 GiB; csvdump for every case and all five callbacks for every 6th: output must be identical to the plaintext directory's (differential oracle; the plaintext csvdump run is additionally compared with the model once per layout); non-trivial = distinct (layout, key)", n);
     rep.bound = json!({"blocks": n, "cases": cases.len(), "keys": keys().len()});
     rep.not_covered = vec!["empty xor.dat (outside the statement)".into()];
     let root = refmodel::world::scratch_root();
     let parts = par_fold(
         &cases,
         || Report::new("C11", "e1"),
-        |w, _i, c, acc| {
+        |w, i, c, acc| {
             let wk = Worker::new(&root, w);
+            // every other case with --verify: the checks it adds must see the de-obfuscated bytes too
+            let verify = i % 2 == 1;
             let chain = if c.big { &big } else { &small };
             let plain_world = build_world(btc, &chain.blocks, 0, &c.layout);
             let mut xor_world = plain_world.clone();
@@ -96,17 +98,21 @@ pub fn run() -> Report {
             }
             let mut plain_obs = Vec::new();
             for cbn in &c.cbs {
-                let r = wk.run(&RunSpec::new("bitcoin", cbn));
+                let r = wk.run(&RunSpec::new("bitcoin", cbn).verify(verify));
                 acc.transitions += 1;
+                if verify && r.code != Some(0) {
+                    acc.count("note:plaintext-verify-run-failed", 1);
+                }
                 plain_obs.push(observe(&r, &wk.dir));
             }
             if let Err(m) = wk.materialise(&xor_world) {
                 return acc.machinery(m);
             }
             for (i, cbn) in c.cbs.iter().enumerate() {
-                let spec = RunSpec::new("bitcoin", cbn);
+                let spec = RunSpec::new("bitcoin", cbn).verify(verify);
                 let r = wk.run(&spec);
                 acc.transitions += 1;
+                acc.count(if verify { "runs-with-verify" } else { "runs-without-verify" }, 1);
                 // the statement is a relation between two runs: the obfuscated directory must give what the plaintext one gives
                 // (whether that common result is right is the business of C01/C07/C08/C15/C16)
                 let mut bad: Vec<Mismatch> = Vec::new();
